@@ -46,7 +46,157 @@ fn narrow_fan(rng: &mut Rng) -> (geo_types::Geometry<f64>, geo_types::Geometry<f
     }
 }
 
-pub fn gen(rng: &mut Rng, _index: u64) -> String {
+/// A coordinate of the tiny grid of the `C01.impl` cases (coincidences are the rule).
+fn tiny(rng: &mut Rng, k: i64) -> geo_types::Coord<f64> {
+    if rng.chance(1, 10) {
+        geo_types::Coord { x: rng.range(0, 2 * k) as f64 / 2.0, y: rng.range(0, 2 * k) as f64 / 2.0 }
+    } else {
+        c(rng.range(0, k), rng.range(0, k))
+    }
+}
+
+/// Linework outside the validity domain: self-crossing, self-overlapping, back-tracking, repeated
+/// coordinates, closed, collapsed to a point, empty.
+fn wild_linestring(rng: &mut Rng, k: i64) -> geo_types::LineString<f64> {
+    use geo_types::LineString;
+    match rng.below(12) {
+        0 => LineString(vec![]),
+        1 => {
+            let p = tiny(rng, k);
+            LineString((0..rng.range(1, 3)).map(|_| p).collect())
+        }
+        _ => {
+            let n = rng.range(2, 6);
+            let mut v = vec![];
+            for _ in 0..n {
+                let p = tiny(rng, k);
+                v.push(p);
+                if rng.chance(1, 6) {
+                    v.push(p);
+                }
+            }
+            if rng.chance(1, 3) {
+                let f = v[0];
+                v.push(f);
+            }
+            LineString(v)
+        }
+    }
+}
+
+/// Rings outside the validity domain: random closed coordinate lists (self-crossing, spikes),
+/// fewer than four coordinates, collinear, either orientation; or a valid ring.
+fn wild_ring(rng: &mut Rng, k: i64) -> geo_types::LineString<f64> {
+    use geo_types::LineString;
+    match rng.below(8) {
+        0 => LineString(vec![]),
+        1 => {
+            let p = tiny(rng, k);
+            let q = tiny(rng, k);
+            LineString(if rng.chance(1, 2) { vec![p, p, p] } else { vec![p, q, p] })
+        }
+        2 => {
+            let x = rng.range(0, k);
+            LineString(vec![c(x, 0), c(x, 1), c(x, 2), c(x, 0)])
+        }
+        3 | 4 => {
+            let n = rng.range(3, 6);
+            let mut v: Vec<_> = (0..n).map(|_| tiny(rng, k)).collect();
+            let f = v[0];
+            v.push(f);
+            LineString(v)
+        }
+        _ => {
+            let mut v = if rng.chance(1, 2) { gen_polygon(rng, k).exterior().0.clone() } else { star_polygon(rng, k).exterior().0.clone() };
+            if rng.chance(1, 2) {
+                v.reverse();
+            }
+            LineString(v)
+        }
+    }
+}
+
+fn wild_polygon(rng: &mut Rng, k: i64) -> geo_types::Polygon<f64> {
+    let ext = wild_ring(rng, k);
+    let holes: Vec<_> = (0..*rng.pick(&[0u64, 0, 1, 2])).map(|_| wild_ring(rng, k)).collect();
+    geo_types::Polygon::new(ext, holes)
+}
+
+/// An operand for `C01.impl`: any geometry the types can hold, on a tiny grid.
+fn wild_geom(rng: &mut Rng, k: i64, depth: u32) -> geo_types::Geometry<f64> {
+    use geo_types::*;
+    match rng.below(16) {
+        0 | 1 => gen_valid(rng, k),
+        2 | 3 => Geometry::LineString(wild_linestring(rng, k)),
+        4 | 5 => Geometry::MultiLineString(MultiLineString((0..rng.range(0, 4)).map(|_| wild_linestring(rng, k)).collect())),
+        6 | 7 => Geometry::Polygon(wild_polygon(rng, k)),
+        8 => Geometry::MultiPolygon(MultiPolygon((0..rng.range(0, 3)).map(|_| wild_polygon(rng, k)).collect())),
+        9 => Geometry::MultiPolygon(MultiPolygon((0..rng.range(1, 3)).map(|_| gen_polygon(rng, k)).collect())),
+        10 => Geometry::MultiPoint(MultiPoint((0..rng.range(0, 4)).map(|_| Point(tiny(rng, k))).collect())),
+        11 => match rng.below(3) {
+            0 => Geometry::Line(Line::new(tiny(rng, k), tiny(rng, k))),
+            1 => Geometry::Rect(Rect::new(tiny(rng, k), tiny(rng, k))),
+            _ => Geometry::Triangle(Triangle(tiny(rng, k), tiny(rng, k), tiny(rng, k))),
+        },
+        _ => {
+            // collections: members of every dimension overlapping on one grid
+            let n = rng.range(0, 4);
+            let v = (0..n)
+                .map(|_| {
+                    if depth > 0 && rng.chance(1, 4) {
+                        wild_geom(rng, k, depth - 1)
+                    } else {
+                        match rng.below(8) {
+                            0 => Geometry::Point(Point(tiny(rng, k))),
+                            1 | 2 => Geometry::LineString(wild_linestring(rng, k)),
+                            3 => Geometry::Polygon(wild_polygon(rng, k)),
+                            4 => Geometry::Polygon(gen_polygon(rng, k)),
+                            5 => Geometry::GeometryCollection(GeometryCollection(vec![])),
+                            6 => { let kind = *rng.pick(&[1u64, 7, 8]); gen_kind(rng, k, kind, 0) }
+                            _ => gen_valid(rng, k),
+                        }
+                    }
+                })
+                .collect();
+            Geometry::GeometryCollection(GeometryCollection(v))
+        }
+    }
+}
+
+/// `C01.impl`: the model of the *implementation* against the implementation. Half of the cases use
+/// the generators of `C01.rel` (operands in the validity domain), the other half any geometry.
+fn gen_impl(rng: &mut Rng) -> String {
+    let (a, b) = match rng.below(8) {
+        0..=3 => {
+            let k = *rng.pick(&[3i64, 4, 4, 6]);
+            (gen_valid(rng, k), gen_valid(rng, k))
+        }
+        4..=6 => {
+            let k = *rng.pick(&[2i64, 3, 3, 4]);
+            let a = wild_geom(rng, k, 2);
+            let b = if rng.chance(1, 3) { gen_valid(rng, k) } else { wild_geom(rng, k, 2) };
+            if rng.chance(1, 2) { (a, b) } else { (b, a) }
+        }
+        _ => (crate::gen::gen_any_geom(rng, 3, 2), crate::gen::gen_any_geom(rng, 3, 2)),
+    };
+    let (a, b) = if rng.chance(1, 5) {
+        use geo::algorithm::map_coords::MapCoords;
+        let s = 2f64.powi(rng.range(-2, 3) as i32);
+        let m = *rng.pick(&[20i64, 1000, 1 << 20, 1 << 27]);
+        let (dx, dy) = (rng.range(-m, m) as f64, rng.range(-m, m) as f64);
+        let f = move |p: geo_types::Coord<f64>| geo_types::Coord { x: (p.x + dx) * s, y: (p.y + dy) * s };
+        (a.map_coords(f), b.map_coords(f))
+    } else {
+        (a, b)
+    };
+    format!("C01.impl {} {}", proto::geom(&a), proto::geom(&b))
+}
+
+pub fn gen(rng: &mut Rng, index: u64) -> String {
+    // every fourth case of the stream relates the model of the implementation to the implementation
+    if index % 4 == 3 {
+        return gen_impl(rng);
+    }
     let k = *rng.pick(&[3i64, 4, 4, 6]);
     if rng.chance(1, 14) {
         let (a, b) = narrow_fan(rng);
@@ -92,12 +242,96 @@ fn im(a: &geo_types::Geometry<f64>, b: &geo_types::Geometry<f64>) -> String {
     }
 }
 
+/// The coordinate lists `GeometryGraph::add_geometry` turns into edges (consecutive repeated
+/// coordinates removed; `Rect` / `Triangle` through `to_polygon`).
+fn edge_coords(g: &geo_types::Geometry<f64>, out: &mut Vec<Vec<geo_types::Coord<f64>>>) {
+    use geo_types::Geometry::*;
+    fn push(cs: &[geo_types::Coord<f64>], out: &mut Vec<Vec<geo_types::Coord<f64>>>) {
+        let mut v: Vec<geo_types::Coord<f64>> = vec![];
+        for c in cs {
+            if v.last() != Some(c) {
+                v.push(*c);
+            }
+        }
+        if v.len() >= 2 {
+            out.push(v);
+        }
+    }
+    fn poly(p: &geo_types::Polygon<f64>, out: &mut Vec<Vec<geo_types::Coord<f64>>>) {
+        push(&p.exterior().0, out);
+        for h in p.interiors() {
+            push(&h.0, out);
+        }
+    }
+    match g {
+        Point(_) | MultiPoint(_) => {}
+        Line(l) => out.push(vec![l.start, l.end]),
+        LineString(ls) => push(&ls.0, out),
+        Polygon(p) => poly(p, out),
+        MultiLineString(m) => m.0.iter().for_each(|l| push(&l.0, out)),
+        MultiPolygon(m) => m.0.iter().for_each(|p| poly(p, out)),
+        Rect(r) => poly(&r.to_polygon(), out),
+        Triangle(t) => poly(&t.to_polygon(), out),
+        GeometryCollection(gc) => gc.0.iter().for_each(|m| edge_coords(m, out)),
+    }
+}
+
+/// The crossing points `line_intersection` reports for the proper crossings `relate` can meet:
+/// ordered pairs of segments within each operand (self-noding) and pairs (segment of A, segment
+/// of B). Rendered `X <n> {p.start p.end q.start q.end point}`; the model of the implementation
+/// is run with these points in place of the exact rational crossing points.
+fn crossing_table(a: &geo_types::Geometry<f64>, b: &geo_types::Geometry<f64>) -> String {
+    use geo::algorithm::line_intersection::{line_intersection, LineIntersection};
+    use geo_types::Line;
+    let segs = |g: &geo_types::Geometry<f64>| -> Vec<Line<f64>> {
+        let mut es = vec![];
+        edge_coords(g, &mut es);
+        es.iter().flat_map(|e| e.windows(2).map(|w| Line::new(w[0], w[1])).collect::<Vec<_>>()).collect()
+    };
+    let (sa, sb) = (segs(a), segs(b));
+    let mut rows: Vec<String> = vec![];
+    let mut seen = std::collections::BTreeSet::new();
+    let mut visit = |p: &Line<f64>, q: &Line<f64>| {
+        if let Some(LineIntersection::SinglePoint { intersection, is_proper: true }) = line_intersection(*p, *q) {
+            let row = format!("{} {} {} {} {}", proto::coord(p.start), proto::coord(p.end), proto::coord(q.start), proto::coord(q.end), proto::coord(intersection));
+            if seen.insert(row.clone()) {
+                rows.push(row);
+            }
+        }
+    };
+    for s in [&sa, &sb] {
+        for (i, p) in s.iter().enumerate() {
+            for (j, q) in s.iter().enumerate() {
+                if i != j {
+                    visit(p, q);
+                }
+            }
+        }
+    }
+    for p in &sa {
+        for q in &sb {
+            visit(p, q);
+        }
+    }
+    let mut out = format!("X {}", rows.len());
+    for r in rows {
+        out.push(' ');
+        out.push_str(&r);
+    }
+    out
+}
+
 pub fn eval(op: &str, t: &mut Toks) -> R<String> {
     match op {
         "C01.dims" => {
             use geo::dimensions::HasDimensions;
             let g = t.geom()?;
             Ok(format!("{} {} {}", dim_str(g.dimensions()), dim_str(g.boundary_dimensions()), g.is_empty()))
+        }
+        "C01.impl" => {
+            let a = t.geom()?;
+            let b = t.geom()?;
+            Ok(format!("{} {}", im(&a, &b), crossing_table(&a, &b)))
         }
         "C01.rel" => {
             let a = t.geom()?;
